@@ -178,9 +178,23 @@ class AuthSession(object):
             mechanism, resp.response, True)
         while chal is not None:
             responses.append(ServerChallenge(chal))
-            resp = mechanism.client_attempt(creds, responses)
+            try:
+                resp = mechanism.client_attempt(creds, responses)
+            except AuthenticationError:
+                # The server asks for more than the mechanism has to give:
+                # the exchange is cancelled, its final reply is the result.
+                return self._client_cancel()
             chal, reply = self._client_respond(mechanism, resp.response)
         return reply
+
+    def _client_cancel(self):
+        self.io.send_command(b'*')
+        self.io.flush_send()
+        ret = Reply(command=b'AUTH')
+        ret.recv(self.io)
+        if not ret.is_error():
+            raise BadReply(bytes(ret))
+        return ret
 
 
 # vim:et:fdm=marker:sts=4:sw=4:ts=4
